@@ -105,24 +105,24 @@ ENGINES = [
 # What the waves of seeded changes added to each check's enumerated space (DESIGN 0.5); the exact rule and the list of
 # parts that ran are in the evidence file (coverage.rule, coverage.parts).
 EXTRA = {
-    "C01": "Also: the stream ending as a history symbol, results of every JSON kind, a slow peer taking the request late, 2-3 calls one after the other on one or on separate connections with every history of deliveries bearing the id of any of the calls, every typed helper x distractor prefixes, debug-logging passes.",
+    "C01": "Also: the stream ending as a history symbol, results of every JSON kind, a slow peer taking the request late, 2-3 calls one after the other on one or on separate connections with every history of deliveries bearing the id of any of the calls, every typed helper x distractor prefixes, a request that cannot be written (no waiting, nothing returned), debug-logging passes.",
     "C02": "Also: the three transports' outbound wire forms for messages built ten ways, progress-token emitters x params carrying _meta, converters and the compatibility wrapper, the same object sent twice with a mutation in between, payload-less results written to and emitted again, dict-returning request handlers x user answers of every JSON kind.",
-    "C03": "Also: fragments / look-alikes of offered versions, refusals carrying a result body, stalled and vanished peers, the tracked client really connected twice, MCPClient sequences and two tasks on one client, two overlapping handshakes, a second handshake after an abandoned or a completed one on the same streams, the caller editing a list the library handed out, the stdio entry points taking the caller's list (incl. MCPClient over StdioTransport) with the answer framed as a line or inside a batch with 0..400 members behind it and the connection object judged at return.",
+    "C03": "Also: fragments / look-alikes of offered versions, refusals carrying a result body, stalled and vanished peers, the tracked client really connected twice, MCPClient sequences and two tasks on one client, two overlapping handshakes, a second handshake after an abandoned or a completed one on the same streams, the caller editing a list the library handed out, the stdio entry points taking the caller's list (incl. MCPClient over StdioTransport) with the answer framed as a line or inside a batch with 0..400 members behind it and the connection object judged at return, caller lists of invented non-date revision names.",
     "C04": "Also: queries before initialize through every public versioning callable, handshake/session-removal sequences, other session stores (copies on read, repeating ids, restored sessions), caller-edited version lists, several handlers alive.",
     "C05": "Also: junk lines that start with a complete message, array lines under each version, explicit-null members, four-read cut vectors, reads of exactly the pipe's read size, bursts beyond the 100-slot buffers, listeners on the side channel, the user closing the write stream, the child exiting with unread output, two connections alive with every interleaving of their reads, the same client entered again; real child with forced partial writes.",
     "C06": "Also: two writers on stdin, send_json, a pipe that takes the bytes and then blocks (1 s .. for ever) or fails for a while, runs of up to 12 (thorough 40) unserialisable items, pre-framed / pretty-printed strings with odd white space, the child's stdout ending while it still reads, two connections with one stalled, four backend configurations after a pretty-printing call.",
-    "C07": "Also: percent / brace / empty / exotic message texts, all ordered pairs of the error module's functions, the grid through five carriers' inbound paths incl. null companions, peers whose answers differ per request, two calls one after the other with a late answer, two concurrent calls sharing a params dict, debug-logging passes; a classified error leaving the four stdio client contexts whatever words its message contains.",
+    "C07": "Also: percent / brace / empty / exotic message texts, all ordered pairs of the error module's functions, the grid through five carriers' inbound paths incl. null companions, peers whose answers differ per request, two calls one after the other with a late answer, two concurrent calls sharing a params dict, debug-logging passes; a classified error leaving the stdio, SSE and Streamable HTTP client contexts whatever words or codes it carries, with and without a token / progress callback.",
     "C08": "Also: exception texts (empty, multi-line, huge, unprintable) and exceptions carrying a code, registration forms of handlers incl. temporary owners, sessions created with a clientInfo of every JSON shape, error texts around every power of two up to 64 KiB in multi-byte characters, dispatch sequences whose responses are held and re-read, overlapping dispatches, several servers alive, debug-logging passes.",
     "C09": "Also: four {Pydantic, fallback} x {orjson, stdlib} configurations, the JSON dump path, member names colliding with model attributes, integers beyond 64 bits, equality/hash, stateful helpers (RootsManager, ToolRegistry) by operation sequences, input mutated after validation, sibling objects, every zero-argument method then dump again, shared sub-instances, id validation order pairs in fresh forks.",
     "C10": "Also: losslessness through model_dump_json, explicit nulls and alias-looking keys in free-form values, look-alike strings for open string members, defaults mutated between validations, dump-call order per class in fresh forks, typed objects edited in place and emitted again, 14+ serialiser sites (helpers driven through their callers).",
     "C11": "Also: ~2500 SSE encodings from the grammar, bodies routing >100 messages, messages behind the response, JSON that is not JSON-RPC, error-status bodies carrying an error object, content-type parameters and BOMs, pipelined requests, runs of 9..25 identical failures, every constructor option, caller-configured session headers, two connections (shared / own parameters, overlapping exchanges), consecutive SSE bodies by ending form, POST-count oracle; real loopback server conformance.",
     "C12": "Also: blank/odd endpoint announcements, id shapes, untyped events, data lines up to 200 KiB, raw Unicode separators and endpoint-looking text, bursts around the 100-slot buffer incl. a timeout with a full stream, a POST whose reply is lost after the server acted, two connections alive, pipelined requests; real loopback server conformance.",
     "C13": "Also: the transport histories with version changes while a batch is routed, versions merely mentioned in traffic, several lines in one read with the application switching versions, pending per-request streams, the handshake answered inside a batch, alternative decision entry points, stdio_client_with_initialize with a batch in flight, fallback-backend member histories, the four entry points that run the handshake themselves x agreed version x batch.",
-    "C14": "Also: +-50 ms grid and T up to 2.2 s (thorough), timeouts of 30 s .. 1 h, the token read from the wire, caller params carrying _meta, congested write streams, user callbacks on the token, one token shared by 2-3 requests, 13 exception classes and 7 callable forms of the progress callback, callbacks that themselves await (up to for ever) across the deadline and the token, the outgoing stream closed by its owner or its reader before the token fires.",
+    "C14": "Also: +-50 ms grid and T up to 2.2 s (thorough), timeouts of 30 s .. 1 h, the token read from the wire, caller params carrying _meta, congested write streams, user callbacks on the token, one token shared by 2-3 requests, 13 exception classes and 7 callable forms of the progress callback, callbacks that themselves await (up to for ever) across the deadline and the token, the outgoing stream closed by its owner or its reader before the token fires, every request method x result / error answers, progress notifications without params or with odd tokens.",
     "C15": "Also: five carriers plus untyped / trailing-partial-event variants, raw ids, endpoint-looking payload text, content-type variants, MCPClient over the Transport classes, every factory / fallback entry point that yields a carrier.",
-    "C16": "Also: entry points (transport, with_initialize, connect_to_server, same client or transport again incl. after a failed start), cancellation at / during spawn and during exit, group exceptions from the body, configured environments (stderr wiring), spawn argument list, helper processes holding stdout, a flooder dying by itself, leaving with a full read stream and per-request streams, the reader rejecting batches towards a child that no longer drains stdin; real children incl. run_command with 1-3 servers, descriptors counted with the garbage collector off.",
+    "C16": "Also: entry points (transport, with_initialize, connect_to_server, same client or transport again incl. after a failed start), cancellation at / during spawn and during exit, group exceptions from the body, configured environments (stderr wiring), spawn argument list, helper processes holding stdout, a flooder dying by itself, leaving with a full read stream and per-request streams, the reader rejecting batches towards a child that no longer drains stdin, bodies leaving by an unrenderable exception or a BaseException; real children incl. run_command with 1-3 servers, descriptors counted with the garbage collector off.",
     "C17": "Also: decode and encode statefulness (pairs / triples of calls against the same call made first in a fresh fork), the dumps option alphabet incl. default hooks on orjson-refused values, the file API over binary / text files of five encodings / odd sinks / NDJSON loops, the model layer in four configurations.",
-    "C18": "Also: auto ids through the same and cloned write streams, ids equal as text, the real stdio transport with every answer order x chunkings (incl. bursts of 150 notifications, a long line in two reads), per-request streams with every id shape and result kind, two connections alive with the same ids, ids reused for back-to-back rounds, abandoned ids asked again, all answers in one batch array with invalid members around them, the same client object after a child that left an unterminated line.",
+    "C18": "Also: auto ids through the same and cloned write streams, ids equal as text, the real stdio transport with every answer order x chunkings (incl. bursts of 150 notifications, a long line in two reads), per-request streams with every id shape and result kind, two connections alive with the same ids, ids reused for back-to-back rounds, abandoned ids asked again, all answers in one batch array with invalid members around them, the same client object after a child that left an unterminated line, a log line followed by answers with the read ending inside a multi-byte character.",
     "C19": "Also: a second handler, store replacement, reseeding the global random generator, clock steps backwards, records aged through the record object, near-miss ids, runs of 255..4096 creations with a quiet session, mass expiry (also under DEBUG logging), independent records, two dispatches overlapping at a handler's suspension point.",
     "C20": "Also: the real CLI (python -m chuk_mcp / main()) with default-location discovery, env steering variables and secret-looking names x logging level, command paths with white space and decoys, syntax-like strings, two calls on one path with the file changing, several launches from one loaded parameters object, server names as one-shot iterables, run_command's error branches.",
 }
